@@ -531,7 +531,7 @@ class ExecCore:
         groups: dict = {}
         for ci in classes:
             k = self.lookup_kind(ci, name)
-            if h.fresh and k[0] in ("slot",):
+            if h.fresh and k[0] in ("slot", "optslot"):
                 # a fresh object has exactly the attributes its constructor stored
                 r = ci.resolve(name)
                 k = ("func", r[1]) if r and r[0] == "func" else (("cattr", r[1], name) if r else
